@@ -3,7 +3,9 @@
 // Inputs are handed over as exactly sized heap copies (ASan sees one-past reads); the hasher
 // object lives in poisoned (0xAA) storage so that nothing depends on a lucky initial buffer content.
 #include "common/hx.h"
+#define private public   // white-box write of `count` for the op `setcount`
 #include <nstd/Crypto/Sha256.hpp>
+#undef private
 
 // the object lives in an exactly sized heap block: `buffer` is its last member, so a write past
 // buffer[63] (or before state[0]) lands in an ASan redzone
@@ -47,7 +49,7 @@ int main()
     byte digest[Sha256::digestSize];
     memset(digest, 0xEE, sizeof(digest));
     bool okHex = true;
-    for(int i = 1; i < l.ntok; ++i) okHex = okHex && validHex(l.tok[i]);
+    for(int i = 1; i < l.ntok; ++i) okHex = okHex && (strcmp(l.tok[0], "setcount") == 0 || validHex(l.tok[i]));
     if(!okHex) { printf("bad-op"); hxEndLine(); }
     else if(hxIs(l, "reset", 0)) { fresh(); printf("ok"); hxEndLine(); }
     else if(hxIs(l, "rst", 0)) { sha->reset(); printf("ok"); hxEndLine(); }
@@ -70,6 +72,15 @@ int main()
       d = hxBytes(l.tok[2], len);
       Sha256::hmac(k, klen, d, len, digest);
       putDigest(digest);
+    }
+    // white box: pretend that `n` bytes (a multiple of 64, so the buffer holds nothing) were hashed
+    // before; reaches the upper bytes of the 64-bit length field without feeding gigabytes
+    else if(l.ntok == 2 && strcmp(l.tok[0], "setcount") == 0)
+    {
+      unsigned long long n = strtoull(l.tok[1], 0, 10);
+      if(n % 64) printf("bad-op");
+      else { sha->count = n; printf("ok"); }
+      hxEndLine();
     }
     // an empty input handed over as (nullptr, 0), as a caller holding an empty Buffer/array would
     else if(hxIs(l, "updatenull", 0)) { sha->update((const byte*)0, 0); printf("ok"); hxEndLine(); }
